@@ -48,6 +48,80 @@ def run(ctx, run):
     C01._page_sizes(ctx, run)
     _subno_range_fits(ctx, run)
     _range_updates_independent(ctx, run)
+    _zombies_not_counted(ctx, run)
+    _stats_leave_own_network(ctx, run)
+
+
+def _zombies_not_counted(ctx, run):
+    """ca->memory_used is the size of the unreferenced pages that can still be found (the priority list).  A zombie
+    left it when it became one, so a function that may see a zombie page (it compares cp->priority with
+    CACHE_PRI_ZOMBIE) takes the page size off memory_used only on the not-a-zombie edge."""
+    P = ctx.prog
+    Z = P.enum_consts.get("CACHE_PRI_ZOMBIE")
+    if Z is None:
+        raise AnalysisBroken("anchor vanished: CACHE_PRI_ZOMBIE")
+    n = 0
+    for f in P.funcs:
+        if f.unit != "src/cache.c" or f.cfg_failed:
+            continue
+        subs = [i for b, i in flow.all_events(f) for lhs, var, op, rhs in flow.stores(f, i)
+                if lhs is not None and op == "-=" and f.exprs[ex.skip(f, lhs)]["k"] == "mem"
+                and f.exprs[ex.skip(f, lhs)]["member"] == "memory_used"]
+        if not subs:
+            continue
+        sees_zombie = any(e["k"] == "bin" and e["op"] in ("==", "!=")
+                          and any(f.exprs[m]["k"] == "mem" and f.exprs[m]["member"] == "priority" and f.exprs[m].get("in") == "cache_page"
+                                  for m in ex.walk(f, k))
+                          and any(ex.const(f, c) == Z for c in e["c"])
+                          for k, e in enumerate(f.exprs))
+        if not sees_zombie:
+            continue
+        run.touch(f)
+        for i in subs:
+            n += 1
+            ok = any(a.cmp_const("!=", "cache_page.priority", Z) for a in atoms.atoms_at(f, i))
+            key = "RF-CORR:%s:zombie-not-counted" % f.name
+            if ok:
+                run.holds("RF-CORR", key, "`%s` only under cp->priority != CACHE_PRI_ZOMBIE" % ex.pretty(f, i), ex.loc(f, i))
+            else:
+                run.violation("RF-CORR", key, "`%s` also runs for zombie pages, whose size left memory_used when they became zombies: "
+                              "every released zombie makes memory_used one page too small, until it wraps and the cache flushes itself"
+                              % ex.pretty(f, i), ex.loc(f, i), witness={"function": f.name})
+    run.floor("memory_used decrements in functions that can see zombie pages", n, 1)
+
+
+def _stats_leave_own_network(ctx, run):
+    """cache_network_remove_page (cn, cp) takes cp out of the statistics of cn: cn has to be the network the page
+    belongs to (cp->network), which need not be the network the caller is storing into."""
+    P = ctx.prog
+    n = 0
+    for f in P.funcs:
+        if f.unit != "src/cache.c" or f.cfg_failed:
+            continue
+        for b, i in flow.all_events(f):
+            e = f.exprs[i]
+            if e["k"] != "call" or e.get("callee") != "cache_network_remove_page" or len(e.get("c", [])) != 2:
+                continue
+            n += 1
+            run.touch(f)
+            a0, a1 = ex.skip(f, e["c"][0]), ex.skip(f, e["c"][1])
+            p0, p1 = ex.path(f, a0), ex.path(f, a1)
+            key = "RF-CORR:%s:stats-of-own-network" % f.name
+            ok = p0 is not None and p1 is not None and p0 in ("%s->network" % p1, "(%s)->network" % p1)
+            if not ok and p0 is not None and p1 is not None:
+                # `n = cp->network; ... remove (n, cp)`: follow the local
+                from .. import linear
+                if f.exprs[a0]["k"] == "ref":
+                    rd = linear.reaching_def(f, f.exprs[a0]["name"], i)
+                    if rd is not None and rd[2] is not None and ex.path(f, rd[2]) in ("%s->network" % p1,):
+                        ok = True
+            if ok:
+                run.holds("RF-CORR", key, "`%s` removes the page from its own network" % ex.pretty(f, i), ex.loc(f, i))
+            else:
+                run.violation("RF-CORR", key, "`%s` takes the page out of the statistics of `%s`, not of the network it belongs to "
+                              "(`%s->network`): when the evicted page is of another network that network keeps counting it and this one "
+                              "counts one page too few" % (ex.pretty(f, i), p0, p1), ex.loc(f, i), witness={"function": f.name})
+    run.floor("cache_network_remove_page call sites", n, 2)
 
 
 def _pairing(ctx, run, what, acq, rel, hint, movers, floor):
